@@ -574,6 +574,12 @@ def __Solver_2(simu: "_Simu", problemType: "ProblemType"):
 
     dofs_Dirichlet = simu.Bc_dofs_Dirichlet(problemType)
     values_Dirichlet = simu.Bc_values_Dirichlet(problemType)
+    # one multiplier per constrained dof: a dof entered several times holds the sum of its values
+    # (as in the elimination solver), two rows for the same dof would make the system singular
+    dofs_Dirichlet, inverse = np.unique(dofs_Dirichlet, return_inverse=True)
+    summed_values = np.zeros(dofs_Dirichlet.size, dtype=values_Dirichlet.dtype)
+    np.add.at(summed_values, inverse, values_Dirichlet)
+    values_Dirichlet = summed_values
 
     list_Bc_Lagrange = simu.Bc_Lagrange
 
